@@ -286,16 +286,34 @@ def r4(ctx, facts):
     r.instance("single-constructor", names == ["TabletReplicas::from_raw_replicas"], "TabletReplicas values are built in %s" % names)
     b = facts.one(r"^scylla::routing::locator::tablets::TabletReplicas::from_raw_replicas$")
     df = df_of(b, facts)
-    fe = b.calls_to("Iterator::for_each")
-    ok = False
-    for c in fe:
-        locs, calls, _ = backward_slice(b, c.args[0])
-        it = [x for x in calls if (x.name or "").endswith("::iter")]
-        for x in it:
-            l2, _, _ = backward_slice(b, x.args[0])
-            alls = [l for l in l2 if b.local_name(l) == "all"]
-            if alls:
-                ok = True
+    # every element put into a per-DC list comes from iterating `all` (for_each closure or explicit loop, possibly in a helper)
+    ALL = {l for l in range(len(b.locals)) if b.local_name(l) == "all"}
+    PUT = ("Vec::<T, A>::push", "Vec::<T>::push", "HashMap::<K, V, S>::insert", "HashMap::<K, V, S, A>::insert")
+
+    def from_all(body, op):
+        return bool(backward_slice(body, op)[0] & ALL)
+    sites, good = 0, 0
+    elem_locals = {c.dest[0] for c in b.calls_to("core::iter::traits::iterator::Iterator::next") if from_all(b, c.args[0])}
+    for c in b.calls_to(*PUT):
+        rl = backward_slice(b, c.args[0])[0]
+        if not any(b.local_name(l) == "per_dc" for l in rl):
+            continue
+        sites += 1
+        vl = backward_slice(b, c.args[-1])[0]
+        good += 1 if vl & elem_locals else 0
+    for c in b.calls_to("Iterator::for_each"):
+        if not from_all(b, c.args[0]):
+            continue
+        a_ = c.args[1]
+        sd = b.single_def(a_[1][0]) if a_[0] in ("c", "m") else None
+        if not (sd and sd[0] == "stmt" and sd[3][0] == "agg" and sd[3][1][0] == "closure"):
+            continue
+        cb = facts.body(sd[3][1][1])
+        for pc in cb.calls_to(*PUT):
+            sites += 1
+            vl = backward_slice(cb, pc.args[-1])[0]
+            good += 1 if 2 in vl else 0
+    ok = sites > 0 and good == sites
     r.instance("per_dc-filled-from-all", ok, "the per-DC lists must be filled by iterating `all` (so each is a restriction of the full replica list)", b.span)
     w = [x for x in field_writers(facts, TR, ["per_dc", "all"]) if x[0] not in ("TabletReplicas::from_raw_replicas", "TabletReplicas::clone[Clone]", "TabletReplicas::default[Default]", "Tablet::update_stale_nodes")]
     r.instance("replica-lists-writers", not w, "TabletReplicas.all/per_dc are written outside from_raw_replicas/update_stale_nodes: %s" % sorted(w))
